@@ -1110,7 +1110,7 @@ type attributeCacheKey struct {
 
 // attributeCacheEntry represents a cached attribute lookup result
 type attributeCacheEntry struct {
-	fieldIndex  int       // Index of the field (-1 if not a field)
+	fieldIndex  []int     // Index path of the field, as for FieldByIndex (nil if not a field)
 	isMethod    bool      // Whether this is a method
 	methodIndex int       // Index of the method (-1 if not a method)
 	ptrMethod   bool      // Whether the method is on the pointer type
@@ -1274,6 +1274,11 @@ func (ctx *RenderContext) getAttribute(obj interface{}, attr string) (interface{
 		objValue = objValue.Elem()
 	}
 
+	// Maps of any type answer x.name like x['name']
+	if objValue.Kind() == reflect.Map {
+		return ctx.getItem(obj, attr)
+	}
+
 	// Only use caching for struct types
 	if objValue.Kind() != reflect.Struct {
 		// Instead of returning an error for non-struct types, return nil
@@ -1324,7 +1329,7 @@ func (ctx *RenderContext) getAttribute(obj interface{}, attr string) (interface{
 
 			// Create a new entry with current timestamp
 			entry = attributeCacheEntry{
-				fieldIndex:  -1,
+				fieldIndex:  nil,
 				methodIndex: -1,
 				lastAccess:  time.Now(),
 				accessCount: 1,
@@ -1333,7 +1338,9 @@ func (ctx *RenderContext) getAttribute(obj interface{}, attr string) (interface{
 			// Look for a field
 			field, found := objType.FieldByName(attr)
 			if found {
-				entry.fieldIndex = field.Index[0] // Assuming single-level field access
+				// The full index path: a field promoted from an embedded struct
+				// is several steps away
+				entry.fieldIndex = field.Index
 			}
 
 			// Look for a method on the value
@@ -1362,9 +1369,11 @@ func (ctx *RenderContext) getAttribute(obj interface{}, attr string) (interface{
 	// Use the cached lookup information to get the attribute
 
 	// Try field access first
-	if entry.fieldIndex >= 0 {
-		field := objValue.Field(entry.fieldIndex)
-		if field.IsValid() && field.CanInterface() {
+	if len(entry.fieldIndex) > 0 {
+		// FieldByIndexErr instead of FieldByIndex: a nil embedded pointer on the path
+		// is an absent attribute, not a panic
+		field, err := objValue.FieldByIndexErr(entry.fieldIndex)
+		if err == nil && field.IsValid() && field.CanInterface() {
 			return field.Interface(), nil
 		}
 	}
